@@ -148,12 +148,28 @@ class Gen:
                 cands.append(("col", m))
             if n1 == n2 == n:
                 cands.append(("diag", m))
+            # nested proxies: sub-range of a row / column / diagonal (strided storage)
+            if n2 > n and n1 > 0:
+                cands.append(("rowrange", m))
+            if n1 > n and n2 > 0:
+                cands.append(("colrange", m))
+            if n1 == n2 and n1 > n:
+                cands.append(("diagrange", m))
         if not cands:
             return None
         how, v = r.choice(cands)
         b = v.expr()
         if how == "var":
             return b
+        if how == "rowrange":
+            s0 = r.range(0, v.shape[1] - n)
+            return self.mk_range(self.mk_row(b, r.below(v.shape[0])), s0, s0 + n)
+        if how == "colrange":
+            s0 = r.range(0, v.shape[0] - n)
+            return self.mk_range(self.mk_col(b, r.below(v.shape[1])), s0, s0 + n)
+        if how == "diagrange":
+            s0 = r.range(0, v.shape[0] - n)
+            return self.mk_range(self.mk_diag(b), s0, s0 + n)
         if how == "range":
             s = r.range(0, v.shape - n)
             e = self.mk_range(b, s, s + n)
@@ -183,12 +199,20 @@ class Gen:
                 cands.append(("rows", m))
             if a == n1 and b > n2:
                 cands.append(("cols", m))
+            if b >= n1 and a >= n2 and (b, a) != (n1, n2):
+                cands.append(("transrange", m))
         if not cands:
             return None
         how, m = r.choice(cands)
         b = m.expr()
         if how == "var":
             return b
+        if how == "transrange":
+            # trans(subrange(M)) or subrange(trans(M))
+            s1 = r.range(0, m.shape[1] - n1); s2 = r.range(0, m.shape[0] - n2)
+            if r.chance(1, 2):
+                return self.mk_mrange(self.mk_trans(b), s1, s1 + n1, s2, s2 + n2)
+            return self.mk_trans(self.mk_mrange(b, s2, s2 + n2, s1, s1 + n1))
         if how == "trans":
             return self.mk_trans(b)
         if how == "mrange":
